@@ -91,6 +91,10 @@ def build_coq():
     with Lock("coq"):
         mk = os.path.join(COQ, "Makefile")
         cp = os.path.join(COQ, "_CoqProject")
+        # _CoqProject is generated: every .v of coq/ (generated cases_*.v never live there)
+        want = "-Q . GB\n" + "".join(f + "\n" for f in sorted(os.path.basename(x) for x in glob.glob(os.path.join(COQ, "*.v")) if not os.path.basename(x).startswith("cases_")))
+        if not os.path.exists(cp) or open(cp).read() != want:
+            open(cp, "w").write(want)
         if not os.path.exists(mk) or os.path.getmtime(mk) < os.path.getmtime(cp):
             sh(["coq_makefile", "-f", "_CoqProject", "-o", "Makefile"], cwd=COQ, check=True)
         rc, out = sh(["timeout", "1500", "make", "-j%d" % NCPU], cwd=COQ)
